@@ -1,6 +1,6 @@
 """C06 — entraited traits: Impl<T> forwards every method to T (Self / ref / Borrow)."""
 from ..common import Report
-from ..corpus import load
+from ..corpus import load, load_repo_tests
 from ..wrules import check_trait_forwarding, check_trait_predicates
 
 
@@ -8,8 +8,10 @@ def run(tier):
     rep = Report("C06", tier, "translation_validation")
     configs = ["plain", "unimock_test"] if tier == "quick" else ["plain", "test", "unimock", "unimock_test"]
     programs = 0
-    for cfg in configs:
-        ld = load(rep, "pos", cfg)
+    loaded = [(cfg, load(rep, "pos", cfg)) for cfg in configs]
+    if tier == "thorough":
+        loaded.append(("unimock_test", load_repo_tests(rep)))
+    for cfg, ld in loaded:
         for exp in ld.crate.expansions:
             if exp.mode == "trait" and not (exp.attr and exp.attr.positional):
                 check_trait_forwarding(rep, ld.crate, exp, cfg)
